@@ -547,6 +547,13 @@ def h_convert_compound(eng, autoconvert):
     refused("offset-squared", {"degA": 2}, {"kel": 2})
     refused("offset-squared-dst", {"kel": 2}, {"degB": 2})
     refused("offset-inverse", {"degA": -1}, {"kel": -1})
+    # ... also next to other units, in either mode and on either side
+    refused("offset-squared-over-base", {"degA": 2, "kel": -1}, {"kel": 1})
+    refused("offset-squared-over-base-dst", {"kel": 1}, {"degB": 2, "kel": -1})
+    refused("offset-squared-in-product", {"degA": 2, "oth": 1}, {"kel": 2, "oth": 1})
+    refused("offset-squared-in-product-dst", {"kel": 2, "oth": 1}, {"degB": 2, "oth": 1})
+    refused("offset-inverse-in-product", {"degA": -1, "oth": 1}, {"kel": -1, "oth": 1})
+    refused("offset-inverse-in-product-dst", {"kel": -1, "oth": 1}, {"degB": -1, "oth": 1})
     if not autoconvert:
         refused("offset-in-product", {"degA": 1, "oth": 1}, {"kel": 1, "oth": 1})
         refused("offset-in-product-dst", {"kel": 1, "oth": 1}, {"degB": 1, "oth": 1})
